@@ -229,8 +229,12 @@ def remeta():
         json.dump(meta, open(mp, "w"), indent=1)
         return meta["id"], meta["caught_by_own_property_check"], meta["rules_fired_own_property"], \
             meta["other_properties_that_fire"], meta["analysis_errors"]
-    with ThreadPoolExecutor(3) as ex:
-        for r in ex.map(one, sorted(d for d in glob.glob(os.path.join(VERIF, "seeded", "C*")) if os.path.isdir(d))):
+    with ThreadPoolExecutor(6) as ex:
+        only = sys.argv[2:]          # optional: seed ids (or suffix letters such as q r) to refresh
+        ds = sorted(d for d in glob.glob(os.path.join(VERIF, "seeded", "C*")) if os.path.isdir(d))
+        if only:
+            ds = [d for d in ds if os.path.basename(d) in only or os.path.basename(d)[3:] in only]
+        for r in ex.map(one, ds):
             print(r)
 
 
